@@ -328,6 +328,25 @@ func meaningfulPackets(rng *rand.Rand, f func(*dhcpv4.DHCPv4)) {
 		}
 		f(q)
 	}
+	// many options at once, one or two of them longer than an instance holds (more than a dozen instances on the wire)
+	for _, nsmall := range []int{8, 11, 12, 13, 20, 40} {
+		for _, long := range []int{256, 300, 700, 3100, 4096} {
+			p, _ := dhcpv4.New()
+			copy(p.TransactionID[:], randBytes(rng, 4))
+			for i := 0; i < nsmall; i++ {
+				p.UpdateOption(dhcpv4.OptGeneric(dhcpv4.GenericOptionCode(100+i), randBytes(rng, 1+rng.Intn(6))))
+			}
+			v := make([]byte, long)
+			for i := range v {
+				v[i] = byte(i / 255) // every instance has its own content: a misplaced one shows
+			}
+			p.UpdateOption(dhcpv4.OptGeneric(dhcpv4.GenericOptionCode(43), v))
+			if nsmall%2 == 0 {
+				p.UpdateOption(dhcpv4.OptGeneric(dhcpv4.GenericOptionCode(82), append([]byte{1, 254}, v[:254]...)))
+			}
+			f(p)
+		}
+	}
 	// boot options that repeat what the header fields say, exactly and almost
 	for k := 0; k < 6; k++ {
 		p, _ := dhcpv4.New(dhcpv4.WithMessageType(dhcpv4.MessageTypeAck))
@@ -399,8 +418,17 @@ func genC01(o *Out, rng *rand.Rand, tier string) {
 	if tier == "thorough" {
 		n = 20000
 	}
+	nemit := 0
 	emit := func(p *dhcpv4.DHCPv4, cls string) {
 		val := abstract4(p)
+		nemit++
+		if nemit%3 == 0 { // a packet is logged before it is sent, as often as not
+			func() {
+				defer func() { recover() }()
+				_ = p.Summary()
+				_ = p.String()
+			}()
+		}
 		w, perr := enc4(p)
 		rec := map[string]any{"op": "RT4", "val": val}
 		if perr != nil {
